@@ -520,6 +520,6 @@ def mon_c11(h, sc, obs):
                 if rd != t.get('data'):
                     ld = t.get('data') or {}
                     keys = sorted(k for k in set(ld) | set(rd if isinstance(rd, dict) else {}) if not isinstance(rd, dict) or rd.get(k, '\0') != ld.get(k, '\0'))
-                    cls = 'internal-keys' if all(k.startswith('$') for k in keys) else 'user-keys'
+                    cls = ('internal:' + '+'.join(keys[:3])) if all(k.startswith('$') for k in keys) else 'user-keys'
                     out.append(V('C11', 'task-field', f"data:{t['kind']}:{cls}", f"{t['kind']} {t['nid']}: data differs on keys {keys[:5]}", seq=seq))
     return out
